@@ -1123,8 +1123,19 @@ class HookEval:
                         self.localvals[st.targets[0].id] = v
                         continue
             if isinstance(st, ast.Try):
-                raise AnalysisError(f"{self.rel}:{st.lineno}: try/except inside hook {self.name} "
-                                    "(may swallow structuring errors; not modelled)")
+                # `try: return A  except Exception: return B`: what the hook returns depends on whether A raises for
+                # the value at hand; both leaves are kept and the judge decides (sites.judge, leaf kind "try")
+                catches_all = bool(st.handlers) and all(
+                    h.type is None or dotted(h.type) in ("Exception", "BaseException") for h in st.handlers)
+                if st.finalbody or st.orelse or not catches_all or len(st.handlers) != 1:
+                    raise AnalysisError(f"{self.rel}:{st.lineno}: try statement inside hook {self.name} of a form that is "
+                                        "not modelled (finally / else / typed handlers)")
+                body = self._exec_block(st.body, w, extra)
+                handler = self._exec_block(st.handlers[0].body, w, extra)
+                if body is None or handler is None:
+                    raise AnalysisError(f"{self.rel}:{st.lineno}: try/except inside hook {self.name} whose branches do "
+                                        "not both return")
+                return Leaf("try", node=st, body=body, handler=handler)
             if isinstance(st, ast.For) and not st.orelse:
                 res = self._exec_for(st, w, extra)
                 if res is not None:
